@@ -151,7 +151,7 @@ func classify(w *world, logA []inject.Call, opStart []int64, ops []upload) []str
 		if oi+1 < len(opStart) {
 			hi = opStart[oi+1]
 		}
-		isSchema := !ops[oi].isRemove() && w.IsSchema[w.Universe[ops[oi].Blob].Ref]
+		isSchema := !ops[oi].isRemove() && (w.IsSchema[w.Universe[ops[oi].Blob].Ref] || len(ops[oi].Par) > 0)
 		inPack := false
 		for i := lo; i < hi; i++ {
 			c := logA[i]
@@ -248,6 +248,28 @@ func (c *caseCtx) execute(freezeAt int64, live func(inst *instance, call inject.
 				lw.release()
 				return nil, nil, fmt.Errorf("panic: %s (op %d): %s", what, oi, pmsg)
 			}
+		} else if len(op.Par) > 0 {
+			what = fmt.Sprintf("%d uploads at the same time", len(op.Par))
+			inRemove.Store(true) // no audits from inside: the other uploads are running
+			errs := make([]error, len(op.Par))
+			ok, pmsg := protect(300*time.Second, func() { errs = c.parallelUploads(inst, op.Par) })
+			inRemove.Store(false)
+			if !ok {
+				return nil, nil, fmt.Errorf("hang: %s (op %d) did not return within 300s", what, oi)
+			}
+			if pmsg != "" {
+				lw.release()
+				return nil, nil, fmt.Errorf("panic: %s (op %d): %s", what, oi, pmsg)
+			}
+			for _, e := range errs {
+				if e != nil {
+					rerr = e
+				}
+			}
+			if n := runaway.Load(); n > 0 {
+				lw.release()
+				return nil, nil, fmt.Errorf("runaway: the packs triggered by %s (op %d) stored %d zips for files of %d chunks and were still going (stopped by the harness)", what, oi, n, c.w.maxChunks())
+			}
 		} else {
 			b := c.w.Universe[op.Blob]
 			what = fmt.Sprintf("receive of %v", b.Ref)
@@ -272,6 +294,10 @@ func (c *caseCtx) execute(freezeAt int64, live func(inst *instance, call inject.
 				curOp = -1
 				audit(inject.Call{Index: inst.plan.Calls(), Layer: "client", Op: "RemoveBlobs", Write: true})
 			}
+			if len(op.Par) > 0 && live != nil && !inst.plan.Frozen() {
+				curOp = -1
+				audit(inject.Call{Index: inst.plan.Calls(), Layer: "client", Op: "ParallelUploads", Write: true})
+			}
 		} else {
 			if !inst.plan.Frozen() {
 				lw.release()
@@ -293,6 +319,73 @@ func (c *caseCtx) execute(freezeAt int64, live func(inst *instance, call inject.
 		res.log[i].Index -= base
 	}
 	return res, opStart, nil
+}
+
+// parallelUploads sends the blobs at the same time, one goroutine each.  The packs they
+// trigger are made to overlap: the n-th zip store of every pack waits (bounded; a timeout only
+// gives up the schedule, it is no verdict) until all of them have reached their n-th zip
+// store, i.e. until every pack has read its chunks and none has committed that zip's rows.
+func (c *caseCtx) parallelUploads(inst *instance, par []int) []error {
+	prev := inst.plan.Yield
+	var mu sync.Mutex
+	arrived := 0
+	cond := sync.NewCond(&mu)
+	gaveUp, timedOut := false, false
+	inst.plan.Yield = func(cl inject.Call) {
+		if prev != nil {
+			prev(cl)
+		}
+		if cl.Layer != "large" || cl.Op != "ReceiveBlob" {
+			return
+		}
+		mu.Lock()
+		arrived++
+		want := (arrived + len(par) - 1) / len(par) * len(par) // end of this round
+		cond.Broadcast()
+		t := time.AfterFunc(20*time.Second, func() {
+			mu.Lock()
+			gaveUp, timedOut = true, true
+			mu.Unlock()
+			cond.Broadcast()
+		})
+		for arrived < want && !gaveUp {
+			cond.Wait()
+		}
+		t.Stop()
+		mu.Unlock()
+	}
+	errs := make([]error, len(par))
+	var wg sync.WaitGroup
+	for i, ui := range par {
+		wg.Add(1)
+		go func() {
+			defer wg.Done()
+			defer func() {
+				if e := recover(); e != nil {
+					errs[i] = fmt.Errorf("panic: %v\n%s", e, ev.PerkeepFrames(string(debug.Stack())))
+				}
+				// an upload that is done no longer takes part in the rounds
+				mu.Lock()
+				gaveUp = true
+				mu.Unlock()
+				cond.Broadcast()
+			}()
+			b := c.w.Universe[ui]
+			_, errs[i] = blobserver.Receive(context.Background(), inst.s, b.Ref, bytes.NewReader(b.Data))
+		}()
+	}
+	wg.Wait()
+	inst.plan.Yield = prev
+	mu.Lock()
+	defer mu.Unlock()
+	if timedOut {
+		c.r.Note("parallel_packs", "schedule-given-up-after-20s")
+	} else if arrived >= len(par) {
+		c.r.Note("parallel_packs", "overlapped-at-zip-store")
+	} else {
+		c.r.Note("parallel_packs", "not-overlapped")
+	}
+	return errs
 }
 
 // guardRunaway bounds the progress of a pack logically: a pack stores at most one zip per
@@ -393,6 +486,14 @@ func (c *caseCtx) runA() {
 		// label of the write that just completed
 		label := "upload-write"
 		switch {
+		case call.Layer == "client" && call.Op == "ParallelUploads":
+			label = "client-parallel-uploads"
+			// the whole-file rows written meanwhile (no audits from inside the operation)
+			for _, f := range w.Files {
+				if _, err := inst.lw.meta.Get("w:" + f.WholeRef.String()); err == nil {
+					wholeDone[f.WholeRef] = true
+				}
+			}
 		case call.Layer == "client":
 			label = "client-remove"
 		case call.Layer == "large" && call.Op == "ReceiveBlob":
@@ -554,6 +655,18 @@ func (c *caseCtx) runA() {
 			}
 			if w.Spec.MaxZip == 0 && zi.Size > blobSizeLimit-(1<<20) {
 				r.Note("zip_shape", "within-1MiB-of-the-16MiB-limit")
+			}
+		}
+		perPart := map[string]int{}
+		for _, zr := range res.lw.largeRefs() {
+			if zi := st.zipOf(zr); zi.parsed {
+				k := fmt.Sprintf("%v:%d", zi.Whole, zi.Part)
+				if perPart[k]++; perPart[k] == 2 {
+					r.Note("file_class", "duplicate-zips-in-the-live-run")
+					if w.Spec.Interleave == "parallel-triggers" {
+						r.Note("file_class", "duplicate-zips-by-concurrent-packs")
+					}
+				}
 			}
 		}
 		if len(wholes) >= 2 {
@@ -969,8 +1082,10 @@ func (c *caseCtx) auditState(st *stateEntry, variant string, deep, direct bool) 
 		if op.isRemove() {
 			continue // the client uploads everything; it does not repeat its removes
 		}
-		ck3.Receive(w.Universe[op.Blob])
-		delete(removed3, w.Universe[op.Blob].Ref)
+		for _, ui := range op.blobs() {
+			ck3.Receive(w.Universe[ui])
+			delete(removed3, w.Universe[ui].Ref)
+		}
 		if n := runaway.Load(); n > 0 {
 			s.viol("pack-runaway/"+s.tail(), fmt.Sprintf("the pack triggered by re-uploading %v stored %d zips for a file of %d chunks and was still going (stopped by the harness)", w.Universe[op.Blob].Ref, n, w.maxChunks()))
 			inst.close()
@@ -1305,6 +1420,13 @@ func genCasesR4(r *ev.Run) []caseSpec {
 	add("short-part", 0, "schema-last", fileSpec{Name: "short-second-zip.bin", Size: 900*kib + rng.Intn(300*kib), Content: "parts:" + []string{"short-last", "short-twice"}[rng.Intn(2)]})
 	out[len(out)-1].MaxZipPerMille = 560
 	add("short-part", 0, orders[rng.Intn(3)], fileSpec{Name: "two-sizes.bin", Size: 600*kib + rng.Intn(300*kib), Content: "parts:" + shapes[5+rng.Intn(2)]})
+	// the same content under two names, the two file schema blobs uploaded at the same time:
+	// both packs run (neither sees the other's final whole-file row), large gets two zips for
+	// one (whole file, part); no crash points, the final state goes through every recovery
+	par := add("parallel-dup", 0, "schema-last",
+		fileSpec{Name: "par-a.bin", Size: 560*kib + rng.Intn(200*kib), Content: "random"},
+		fileSpec{Name: "par-b.bin", Content: "as:par-a.bin"})
+	par.Interleave, par.Crash = "parallel-triggers", "none"
 	if !r.Thorough() {
 		return out
 	}
@@ -1313,6 +1435,19 @@ func genCasesR4(r *ev.Run) []caseSpec {
 		add("short-part", 0, orders[(i+1)%3], fileSpec{Name: fmt.Sprintf("sp%d-multi.bin", i), Size: 900*kib + rng.Intn(600*kib), Content: "parts:" + sh})
 		out[len(out)-1].MaxZipPerMille = []int{560, 420, 700}[i%3]
 	}
+	par = add("parallel-dup", 1<<20, "schema-last", // two zips each; names of equal length = equal splits
+		fileSpec{Name: "par-multi-a.bin", Size: 1300*kib + rng.Intn(500*kib), Content: "random"},
+		fileSpec{Name: "par-multi-b.bin", Content: "as:par-multi-a.bin"})
+	par.Interleave, par.Crash = "parallel-triggers", "none"
+	par = add("parallel-dup", 0, "schema-last", // three names
+		fileSpec{Name: "par3-a.bin", Size: 560*kib + rng.Intn(400*kib), Content: "periodic", Period: 90 * kib},
+		fileSpec{Name: "par3-b.bin", Content: "as:par3-a.bin"},
+		fileSpec{Name: "par3-c.bin", Content: "as:par3-a.bin"})
+	par.Interleave, par.Crash = "parallel-triggers", "none"
+	par = add("parallel-dup", 0, "schema-last", // two unrelated files packed at the same time
+		fileSpec{Name: "par-x.bin", Size: 560*kib + rng.Intn(200*kib), Content: "random"},
+		fileSpec{Name: "par-y.bin", Size: 560*kib + rng.Intn(200*kib), Content: "random"})
+	par.Interleave, par.Crash = "parallel-triggers", "none"
 	// a short-part file next to a packed file that shares its ordinary chunks is not possible
 	// with generated contents; next to an unrelated packed file it is
 	add("short-part", 0, "schema-last",
@@ -1380,7 +1515,7 @@ func run(r *ev.Run) {
 			cmu.Unlock()
 			for k := int64(0); k < c.N; k++ {
 				k := k
-				if cs.Crash == "pack-writes" && !packWrite[c.labels[k]] {
+				if cs.Crash == "none" || (cs.Crash == "pack-writes" && !packWrite[c.labels[k]]) {
 					r.Count("crash_points_not_enumerated", 1)
 					continue
 				}
